@@ -54,6 +54,11 @@ CLAIMED = {
    note='Trusted: Coq kernel; hand-written Model/Builder.v; MAX_PDU / 4000 / the fixed part of `limit` generated from update_builder.rs, mirrored function bodies pinned by hash (tools/gen_builder.py); tied by a differential run on builder scripts landing on and around every split threshold for all 26 NLRI types and every next-hop form, plus an independent Python splitter judging the implementation output alone. usize overflow of the length sums is not modelled.',
    technique='Coq proof: progress measure, conservation invariant over the batch plan, byte-level refinement to the reference encoder and reuse of the C01 decode theorems; differential correspondence on builder scripts',
    design='5/C06'),
+ 'C07': dict(
+   text='Machine-checked proof (Coq 8.16): for every accepted UPDATE of at most 21845 octets (hence every 4096-octet PDU) and every session configuration, to_owned succeeds on every path attribute and yields a well-formed owned value; composing them - directly, in order, or through the attribute map (one per type code, ascending, MP_REACH/MP_UNREACH left out) - succeeds and the octets decode, attribute by attribute under the four-octet configuration, to the same type codes with the same owned values for recognised types, to the same value octets for unrecognised and for malformed ones (any length, either length encoding on input), with flags = received optional/transitive bits + PARTIAL and the extended-length bit matching the length. Builder route (c07_builder_partial): the seeded builder carries exactly that map and its message is a well-formed UPDATE whose MP sections decode to the re-added NLRI, under the hypothesis that those NLRI are well-formed values of the builder type.',
+   note='Trusted: Coq kernel; hand-written Model/Attr.v, Model/Update.v, Model/Builder.v, generated attribute table; tied by a differential run on accepted UPDATEs with unknown attributes of every flag nibble and malformed recognised attributes of 0..1000 octets, whose re-encoded octets are decoded again by the implementation (second stage) and compared attribute by attribute. Known finding K5: add_*_from_pdu panics (unwrap) when the NLRI do not parse as the builder type.',
+   technique='Coq proof: validate => well-formed owned value per attribute type, framing lemma for opaque attributes, induction over the attribute walk, suffix-parser invariant for "accepted"; two-stage differential correspondence',
+   design='5/C07'),
  'C02': dict(
    text='Machine-checked proof (Coq 8.16): for every byte string of any length and every session configuration UPDATE decoding returns a message or an error, never a panic (every slice index, unwrap, with_range and u8 operation of the modelled code is an explicit Panic branch shown unreachable); every NLRI iterator (conventional and MP) ends after at most as many items as the section has octets, an item-level error is its last item and no item is a panic; path attribute items and their to_owned conversion, the typed getters and the four community iterators never panic; the all-or-nothing vectors succeed exactly when every item does and fail exactly when an item fails.',
    note='Trusted: Coq kernel; hand-written Model/Update.v over the C04/C05/C13 models (tied by a differential run on mutated valid messages of every family, grammar walks with adversarial length fields, random octets, random ADD-PATH maps; every accessor outcome compared, PANIC/HANG on the implementation is a failing input by itself). Accessors that are thin wrappers (typed_*, find_next_hop, human-readable variants) are exercised only.',
